@@ -145,6 +145,13 @@ impl World for FarmWorld {
                 let nonce: u64 = w[3].parse().unwrap();
                 let pre = self.snap();
                 let attr = pre.toks.get(&nonce).cloned();
+                if let Some(a) = &attr {
+                    if a.owner != user {
+                        tr.count("branch.quote_foreign_position");
+                        let (bu, bo) = (self.expected_boosted(&pre, user), self.expected_boosted(&pre, a.owner));
+                        if bu != bo { tr.count("branch.quote_foreign_position_boosted_differs"); }
+                    }
+                }
                 // `execute_query` commits in this VM: evaluate on a twin world rebuilt from the op prefix
                 let v = match attr {
                     None => None,
